@@ -153,7 +153,28 @@ def gen_run(rng: random.Random, quick: bool, force=None):
     # history, a copy of the filter object taking over for two calls, outputs scribbled over after every call
     # pass 4: a user's subclass of the system and of the filter class; a large system clock (above 2^24, a UNIX epoch) with a
     # system that uses the time through an exact remainder; the process default dtype flipped around some calls
+    # pass 5: user callbacks that return their argument / a view of it / a stored buffer
+    c["alias_sys"] = force.get("alias_sys", rng.choice([None, None, None, ["affine", "state"], ["affine", "state-view"],
+                                                         ["state", "state-view"], ["input", "state"], ["buffer", "state-view"],
+                                                         ["state", "affine"]]))
+    if c["alias_sys"]:
+        fm, gm = c["alias_sys"]
+        c["nonlinear"] = False
+        if gm == "state":
+            c["p"] = c["n"]
+        elif gm == "state-view":
+            c["p"] = min(c["p"], c["n"])
+        if fm == "input":
+            c["m"] = c["n"]
+        force = dict(force, subclass=False, clock=None)
+        c["timevar"] = False
+        if c["extreme"] in ("A-zero", "C-zero") if "extreme" in c else False:
+            c["extreme"] = "-"
     c["subclass"] = force.get("subclass", rng.random() < 0.3)
+    # a user's subclass that overrides PROPERTIES: the filter's Q / R as properties (the constructor receives None), the
+    # system's A / C as properties with analytic Jacobians
+    c["prop_store"] = force.get("prop_store", rng.random() < 0.3)
+    c["prop_jac"] = force.get("prop_jac", (not c["subclass"]) and (not c.get("alias_sys")) and rng.random() < 0.3)
     c["clock"] = force.get("clock", rng.choice([None, None, None, 2 ** 24 + 1, 2 ** 24 + 3, 1_700_000_003]))
     if c["clock"] is not None:
         c["timevar"] = True
@@ -173,6 +194,8 @@ def gen_run(rng: random.Random, quick: bool, force=None):
         c["scales"] = [1e-7, 1e-8, 1.0] if c["dtype"] == "float64" else [1e-4, 1e-5, 1.0]
         c["cond"] = 1e10 if c["dtype"] == "float64" else 1e4
         c["diag"] = False
+    if c["extreme"] == "near-sym" and (c["filter"] == "ukf" or c["dtype"] != "float64"):
+        c["extreme"] = "-"          # nearly symmetric P, Q, R (relative asymmetry 1e-6 … 1e-9): EKF formulas need no symmetry
     if c["extreme"] == "Q-zero" and c["filter"] == "ukf":
         c["extreme"] = "-"          # Q = 0 is positive semidefinite: fine for EKF; the UKF's Cholesky needs P- > 0
     if c["extreme"] == "Q-zero":
@@ -182,7 +205,7 @@ def gen_run(rng: random.Random, quick: bool, force=None):
     return c
 
 
-EXTREMES = ["y-far", "x-huge", "u-huge", "k-edge", "A-zero", "C-zero", "tiny-scale", "S-illcond", "Q-zero"]
+EXTREMES = ["y-far", "x-huge", "u-huge", "k-edge", "A-zero", "C-zero", "tiny-scale", "S-illcond", "Q-zero", "near-sym"]
 K_EDGE = [1e6, "-n+0.0001", 1e-9, -1e-9]
 
 
@@ -267,12 +290,30 @@ def corpus_runs(quick: bool):
         specs.append(dict(NICE, filter=flt, n=4, m=1, p=2, dtype="float64", nonlinear=(flt == "ukf"), T=2, store="none",
                           t_mode="none", vary_qr=False, cond=1.0, diag=True, ydev0=True, subclass=False, clock=None,
                           flip_default=False, k_seq=[0, 0]))
+    # pass 5 corpus: user callbacks returning their argument / a view / a stored buffer (non-zero state, two calls)
+    for flt in ("ekf", "ukf"):
+        for al, (nn, mm, pp_) in ((["affine", "state"], (3, 2, 3)), (["affine", "state-view"], (3, 1, 2)),
+                                  (["state", "state-view"], (2, 1, 1)), (["input", "state"], (2, 2, 2)),
+                                  (["buffer", "state-view"], (3, 1, 2)), (["state", "affine"], (2, 1, 2))):
+            specs.append(dict(NICE, filter=flt, n=nn, m=mm, p=pp_, dtype="float64", T=2, store="none", t_mode="none",
+                              vary_qr=False, alias_sys=al, xmag=10.0, k_seq=[1, "none"], arg_mode="fresh", extreme="-"))
+    # user subclasses overriding PROPERTIES: the filter's Q / R (stored -> property), the system's A / C (analytic Jacobians)
+    for flt in ("ekf", "ukf"):
+        specs.append(dict(NICE, filter=flt, n=2, m=1, p=2, dtype="float64", nonlinear=False, T=6, store="both", pass_seq=PASS_SEQ,
+                          t_mode="none", vary_qr=False, prop_store=True, k_seq=[1, "none", 2, 1, "none", 0.5]))
+        specs.append(dict(NICE, filter=flt, n=3, m=1, p=2, dtype="float64", nonlinear=False, T=3, store="Q",
+                          pass_seq=[(0, 1), (1, 1), (0, 1)], t_mode="none", vary_qr=False, prop_store=True, k_seq=[1, 1, "none"]))
+        specs.append(dict(NICE, filter=flt, n=2, m=2, p=2, dtype="float64", nonlinear=True, T=3, store="none", t_mode="mixed",
+                          vary_qr=False, prop_jac=True, subclass=False, k_seq=[1, "none", 2]))
     # special sizes: p = 2n+1 (number of sigma points), n = m = p = 3, n = 1 with p = 3, all ones
     for flt in ("ekf", "ukf"):
         for (nn, mm, pp_) in ((2, 2, 5), (3, 3, 3), (1, 3, 3), (1, 1, 1), (6, 6, 6)):
             specs.append(dict(NICE, filter=flt, n=nn, m=mm, p=pp_, dtype="float64", nonlinear=(nn == 3), T=2, store="none",
                               t_mode="none", vary_qr=False, k_seq=[1, "none"]))
     for sp in specs:
+        sp.setdefault("prop_store", False)
+        sp.setdefault("prop_jac", False)
+        sp.setdefault("alias_sys", None)
         sp.setdefault("subclass", False)
         sp.setdefault("clock", None)
         sp.setdefault("flip_default", False)
@@ -304,9 +345,36 @@ def corpus_pf():
                                                             "subclass": i == 11, "clock": (2 ** 24 + 1) if i == 10 else None,
                                                             "craft": late or i % 2 == 0, "pass_t": late or i % 3 == 0})
         c.update(seed=130200 + i, n=n, m=1, p=2, T=4 if i >= 4 else 3, corpus=i, arg_mode=am, qr_scales=[1.0, 2.0, 0.5, 1.0],
-                 pass_seq=PASS_SEQ, timevar=True)
+                 pass_seq=PASS_SEQ, timevar=True, alias_sys=None)
+        out.append(c)
+    for i, al in enumerate((["affine", "state-view"], ["state", "state"], ["buffer", "state-view"])):
+        c = gen_pf(random.Random(130250 + i), False, True, {"dtype": "float64", "nonlinear": False, "N": 17, "store": "none",
+                                                            "fail_at": None, "fork_at": None, "subclass": False, "clock": None,
+                                                            "craft": True, "pass_t": False, "alias_sys": al})
+        c.update(seed=130250 + i, n=2, m=1, p=2 if al[1] == "state" else 1, T=2, corpus=50 + i, arg_mode="fresh",
+                 timevar=False, nonlinear=False)
         out.append(c)
     return out
+
+
+def alias_params(prm, alias_sys, n, m, p):
+    """parameters of the affine maps that the alias-returning callbacks implement"""
+    if not alias_sys:
+        return prm
+    fm, gm = alias_sys
+    eye = lambda r, cc: [[1.0 if i == j else 0.0 for j in range(cc)] for i in range(r)]
+    zer = lambda r, cc: [[0.0] * cc for _ in range(r)]
+    prm = dict(prm)
+    if fm != "affine":
+        prm["tf"], prm["af"] = [0.0] * n, [0.0] * n
+        prm["A0"] = eye(n, n) if fm == "state" else zer(n, n)
+        prm["B0"] = eye(n, m) if fm == "input" else zer(n, m)
+        if fm != "buffer":
+            prm["c1"] = [0.0] * n
+    if gm != "affine":
+        prm["tg"], prm["ag"] = [0.0] * p, [0.0] * p
+        prm["C0"], prm["D0"], prm["c2"] = eye(p, n), zer(p, m), [0.0] * p
+    return prm
 
 
 def materialise_run(c):
@@ -314,6 +382,7 @@ def materialise_run(c):
     rng = random.Random(c["seed"])
     n, m, p, dt = c["n"], c["m"], c["p"], dt_of(c["dtype"])
     prm = uf.gen_family(rng, n, m, p, dt, c["nonlinear"], c["timevar"], stable=c["T"] > 5)
+    prm = alias_params(prm, c.get("alias_sys"), n, m, p)
     sP, sQ, sR = c["scales"]
 
     def mk(nn, s):
@@ -352,12 +421,27 @@ def materialise_run(c):
         st["flip_default"] = bool(c.get("flip_default")) and rng.random() < 0.6
         st["k_type"] = rng.choice(["python", "python", "tensor"])
         st["grad"] = (rng.choice(GRADS) if c.get("grad", "mixed") == "mixed" else c["grad"])
-        if st["grad"] == "requires_grad" and c.get("fork_kind") == "deepcopy" and c.get("fork_at") is not None \
+        if st["grad"] == "requires_grad" and (c.get("fork_kind") == "deepcopy" or c.get("prop_store")) \
+                and c.get("fork_at") is not None \
                 and j < c["fork_at"]:
             # observation on the unchanged tree: after a call with requires_grad operands the NLS system keeps non-leaf
             # reference tensors (_ref_f, _ref_g) and copy.deepcopy of the filter raises; only copies that work are used
             st["grad"] = "no_grad"
         d["steps"].append(st)
+    if ext == "near-sym":
+        def skew(Mx, rel):
+            k_ = len(Mx)
+            sc = max(abs(v) for row in Mx for v in row) * rel
+            out = [list(row) for row in Mx]
+            for i in range(k_):
+                for j2 in range(i + 1, k_):
+                    e_ = sc * rng.uniform(0.3, 1.0) * rng.choice([-1, 1])
+                    out[i][j2] += e_
+                    out[j2][i] -= e_
+            return out
+        rel = rng.choice([1e-6, 1e-7, 1e-9])
+        d["P0"], d["Qc"], d["Rc"] = skew(d["P0"], rel), skew(d["Qc"], rel), skew(d["Rc"], rel)
+        d["Qdecoy"], d["Rdecoy"] = skew(d["Qdecoy"], rel), skew(d["Rdecoy"], rel)
     d["t_reset"] = rng.choice([1, 3, 7]) if c["t_mode"] == "reset" else 0
     d["delta"] = uf.round_dt(uf.vec_mag(rng, p, [0.5, 2.0]), dt)
     if ext == "Q-zero":
@@ -528,10 +612,29 @@ def guarded_call(filt, mon, name, args, kw, st, is_ukf):
         torch.set_default_dtype(old_default)
 
 
+def stv_early(c):
+    return store_of(c)
+
+
 def make_filter(P_, c, model, Qs, Rs):
     base = P_.module.UKF if c["filter"] == "ukf" else P_.module.EKF
     cls = type("User" + base.__name__, (base,), {}) if c.get("subclass") else base      # a user's subclass of the filter
-    if c["filter"] == "ukf" and c.get("msqrt") == "sym":
+    sym = c["filter"] == "ukf" and c.get("msqrt") == "sym"
+    if c.get("prop_store") and (Qs is not None or Rs is not None):
+        # the user's subclass provides Q / R as PROPERTIES (the constructor gets nothing to store)
+        attrs = {}
+        if Qs is not None:
+            attrs["Q"] = property(lambda self: self.userQ)
+        if Rs is not None:
+            attrs["R"] = property(lambda self: self.userR)
+        pcls = type("Prop" + base.__name__, (cls,), attrs)
+        filt = pcls(model, msqrt=sym_sqrt) if sym else pcls(model)
+        filt.userQ, filt.userR = Qs, Rs
+        return filt
+    if Qs is None and Rs is None:
+        # every optional argument OMITTED (not passed as None): the documented defaults
+        return cls(model, msqrt=sym_sqrt) if sym else cls(model)
+    if sym:
         return cls(model, Q=Qs, R=Rs, msqrt=sym_sqrt)
     return cls(model, Q=Qs, R=Rs)
 
@@ -546,11 +649,21 @@ def run_gen(ctx: Ctx, c, lines, metas, verbose=False):
     T = lambda v: torch.tensor(v, dtype=dt)
     mode = c.get("arg_mode", "fresh")
     prm = {kx: v for kx, v in d["prm"].items()}          # current system parameters (drift in place in `inplace` mode)
-    sub = bool(c.get("subclass"))
-    model = (uf.fam_class().Sub if sub else uf.fam_class())(prm, dt)
+    sub = bool(c.get("subclass")) and not c.get("alias_sys")
+    if c.get("alias_sys"):
+        model = uf.fam_class().Alias(prm, dt)
+        model.f_mode, model.g_mode = c["alias_sys"]
+        ctx.count(f"run.callbacks-return(f={model.f_mode},g={model.g_mode})")
+    elif c.get("prop_jac") and not sub:
+        model = uf.fam_class().PropJac(prm, dt)
+        ctx.count("run.user-Jacobian-properties")
+    else:
+        model = (uf.fam_class().Sub if sub else uf.fam_class())(prm, dt)
     if sub:
         model.delta = T(d["delta"])
         ctx.count("run.user-subclass")
+    if c.get("prop_store") and stv_early(c) != "none":
+        ctx.count("run.user-QR-properties")
     tmod = 7 if c.get("clock") is not None else 0
     if tmod:
         model.tmod = tmod
@@ -599,6 +712,9 @@ def run_gen(ctx: Ctx, c, lines, metas, verbose=False):
                     ctorR.mul_(dr["qr_scale"])
                     ctorRl = [[v * dr["qr_scale"] for v in row] for row in ctorRl]
                 ctx.count("run.ctor-QR-updated-in-place")
+            fm_alias = (c.get("alias_sys") or ["affine"])[0]
+            if fm_alias in ("state", "input"):
+                dr = dict(dr, A_scale=1.0, c1_delta=[0.0] * n)       # these callbacks do not read the system's parameters
             if dr["A_scale"] != 1.0 or any(dr["c1_delta"]):
                 prm = dict(prm)
                 prm["A0"] = [[v * dr["A_scale"] for v in row] for row in prm["A0"]]
@@ -615,11 +731,11 @@ def run_gen(ctx: Ctx, c, lines, metas, verbose=False):
         if c.get("fork_at") == j and mode != "inplace" and original is None and j > 0:
             original = (filt, model, ctorQ, ctorR)
             try:
-                if c["fork_kind"] == "deepcopy":
+                if c["fork_kind"] == "deepcopy" or (c.get("prop_store") and stv != "none"):
                     filt = copy.deepcopy(filt)
                     model = filt.model
-                    ctorQ = filt._Q if ctorQ is not None else None
-                    ctorR = filt._R if ctorR is not None else None
+                    ctorQ = filt.Q if ctorQ is not None else None
+                    ctorR = filt.R if ctorR is not None else None
                 else:
                     f2 = make_filter(P_, c, model, None if ctorQ is None else torch.zeros_like(ctorQ),
                                      None if ctorR is None else torch.zeros_like(ctorR))
@@ -816,7 +932,7 @@ def run_gen(ctx: Ctx, c, lines, metas, verbose=False):
                                    f"|P-P_ref|={dP:.3e} ({rP:.2e} x tol) n,m,p={n},{m},{p} k={kspec} dtype={c['dtype']} "
                                    f"args={mode}")
         # ---- oracle (c): covariance validity
-        if centre_ok:
+        if centre_ok and c.get("extreme") != "near-sym":
             carry = ref["gain2"] * (in_asym + max(0.0, -in_lam)) if j > 0 else 0.0
             asym, lam, ok = psd_check(P2, tolPs, carry)
             ctx.count("oracle.psd")
@@ -992,6 +1108,10 @@ def gen_pf(rng: random.Random, stat: bool, quick: bool, force=None):
     c["clock"] = force.get("clock", rng.choice([None, None, 2 ** 24 + 1, 1_700_000_003]))
     if c["clock"] is not None:
         c["timevar"] = True
+    c["alias_sys"] = force.get("alias_sys", rng.choice([None, None, ["affine", "state-view"], ["state", "state"], ["buffer", "state-view"]]))
+    if c["alias_sys"]:
+        c["nonlinear"], c["subclass"], c["clock"], c["timevar"] = False, False, None, False
+        c["p"] = c["n"] if c["alias_sys"][1] == "state" else min(c["p"], c["n"])
     c["craft"] = force.get("craft", rng.random() < 0.5)
     c["pass_t"] = force.get("pass_t", rng.random() < 0.4)
     return c
@@ -1001,6 +1121,7 @@ def materialise_pf(c):
     rng = random.Random(c["seed"])
     n, m, p, dt = c["n"], c["m"], c["p"], dt_of(c["dtype"])
     prm = uf.gen_family(rng, n, m, p, dt, c["nonlinear"], c["timevar"], stable=True)
+    prm = alias_params(prm, c.get("alias_sys"), n, m, p)
     sP, sQ, _ = c["scales"]
 
     def mk(nn, s):
@@ -1063,8 +1184,12 @@ def pf_setup(c, d):
     P_ = uf.pp()
     dt = dt_of(c["dtype"])
     T = lambda v: torch.tensor(v, dtype=dt)
-    sub = bool(c.get("subclass"))
-    model = (uf.fam_class().Sub if sub else uf.fam_class())(d["prm"], dt)
+    sub = bool(c.get("subclass")) and not c.get("alias_sys")
+    if c.get("alias_sys"):
+        model = uf.fam_class().Alias(d["prm"], dt)
+        model.f_mode, model.g_mode = c["alias_sys"]
+    else:
+        model = (uf.fam_class().Sub if sub else uf.fam_class())(d["prm"], dt)
     d["prmE"] = d["prm"]
     if sub:
         model.delta = T(d["delta"])
@@ -1075,7 +1200,10 @@ def pf_setup(c, d):
     stv = store_of(c)
     ctorQ = T(d["Qdecoy"]) if stv in ("Q", "both") else None
     ctorR = T(d["Rdecoy"]) if stv in ("R", "both") else None
-    pf = rec_pf_class()(model, Q=ctorQ, R=ctorR, particles=c["N"])
+    if c.get("default_particles"):       # every optional argument omitted: documented default 1000 particles
+        pf = rec_pf_class()(model)
+    else:
+        pf = rec_pf_class()(model, Q=ctorQ, R=ctorR, particles=c["N"])
     pf.rec = {}
     return model, pf, T
 
@@ -1533,6 +1661,7 @@ def run(ctx: Ctx):
         run_pf_stat(ctx, gen_pf(rng, True, ctx.quick, forced[i] if i < len(forced) else None))
     f32_large(ctx)
     pf_large_laws(ctx)
+    pf_defaults(ctx)
     witness_stream(ctx)
     t4 = time.time()
     ctx.notes.append(f"wall: runs {t1 - t0:.1f}s, pf-corr {t2 - t1:.1f}s, model driver {t3 - t2:.1f}s, pf-stat {t4 - t3:.1f}s")
@@ -1597,13 +1726,25 @@ def pf_large_laws(ctx: Ctx):
     """particle counts around internal block sizes (2^14, 2^14+1, 2^16+1, ...): the deterministic laws of the documented particle
     model (weights, selection rule incl. the LAST particle, moments) on what the real code hands between its stages — no model
     run needed on 10^5 items"""
-    sizes = [16385, 65537] if ctx.quick else [16384, 16385, 32769, 65536, 65537, 131073]
+    sizes = [16385, 65537, 131073] if ctx.quick else [16384, 16385, 32769, 65536, 65537, 131073, 2 ** 18 + 1, 2 ** 18 + 37, 2 ** 20 + 1]
     for i, N in enumerate(sizes):
         c = gen_pf(random.Random(130300 + i), False, True, {"dtype": "float64" if i % 2 == 0 else "float32", "nonlinear": False,
                                                             "N": N, "store": "none", "fail_at": None, "fork_at": None,
                                                             "arg_mode": "fresh", "craft": True, "subclass": False, "clock": None})
         c.update(seed=130300 + i, n=2, m=1, p=2, T=1, laws_only=True, corpus=100 + i)
         ctx.count(f"pf-large.N={N}")
+        run_pf_corr(ctx, c, [], [])
+
+
+def pf_defaults(ctx: Ctx):
+    """several PF objects constructed with every optional argument omitted (documented default: 1000 particles, nothing stored),
+    different systems, used one after the other in one process; laws of the particle model on each"""
+    for i in range(2):
+        c = gen_pf(random.Random(130400 + i), False, True, {"dtype": "float64", "nonlinear": bool(i), "N": 1000, "store": "none",
+                                                            "fail_at": None, "fork_at": None, "arg_mode": "fresh", "craft": False,
+                                                            "subclass": False, "clock": None, "alias_sys": None, "pass_t": False})
+        c.update(seed=130400 + i, n=2 + i, m=1, p=2, T=2, N=1000, laws_only=True, default_particles=True, corpus=200 + i)
+        ctx.count("pf-defaults")
         run_pf_corr(ctx, c, [], [])
 
 
